@@ -34,13 +34,6 @@ def ofCompiler (k : Typing.Compiler) (imports : PyDict) (lines : List Str) : Typ
     iterable := Typing.iterable k, async_iterable := Typing.asyncIterable k,
     async_iterator := Typing.asyncIterator k, imports := imports, import_lines := lines }
 
-theorem strip_eq (s : Str) : Py.strStrip s Tpl.qt = Typing.stripQ s := by
-  have : (fun c : Char => Tpl.qt.contains c) = (fun c => c == Typing.dq) := by
-    funext c
-    simp [Tpl.qt, Typing.dq, List.contains, List.elem]
-    cases (c == '"') <;> rfl
-  simp only [Py.strStrip, Typing.stripQ, this]
-
 /-! ## the typing compiler: used at the sites, and only there -/
 
 /-- only the services' classes take the typing compiler: enums and messages are rendered without it … -/
